@@ -83,7 +83,7 @@ class Diagonal(LinearOperator):
 
     def conj(self) -> Diagonal:
         """Complex conjugate of this :class:`Diagonal`."""
-        return Diagonal(diagonal=self.diagonal.conj())
+        return Diagonal(diagonal=self.diagonal.conj(), input_shape=self.input_shape)
 
     @property
     def H(self) -> Diagonal:
@@ -97,33 +97,35 @@ class Diagonal(LinearOperator):
         Return a new :class:`Diagonal` :code:`G` such that
         :code:`G(x) = A.adj(A(x)))`.
         """
-        return Diagonal(diagonal=self.diagonal.conj() * self.diagonal)
+        return Diagonal(diagonal=self.diagonal.conj() * self.diagonal, input_shape=self.input_shape)
 
     @_wrap_add_sub
     def __add__(self, other):
         if self.diagonal.shape == other.diagonal.shape:
-            return Diagonal(diagonal=self.diagonal + other.diagonal)
+            return Diagonal(diagonal=self.diagonal + other.diagonal, input_shape=self.input_shape)
         raise ValueError(f"Incompatible shapes: {self.shape} != {other.shape}.")
 
     @_wrap_add_sub
     def __sub__(self, other):
         if self.diagonal.shape == other.diagonal.shape:
-            return Diagonal(diagonal=self.diagonal - other.diagonal)
+            return Diagonal(diagonal=self.diagonal - other.diagonal, input_shape=self.input_shape)
         raise ValueError(f"Incompatible shapes: {self.shape} != {other.shape}.")
 
     @_wrap_mul_div_scalar
     def __mul__(self, scalar):
-        return Diagonal(diagonal=self.diagonal * scalar)
+        return Diagonal(diagonal=self.diagonal * scalar, input_shape=self.input_shape)
 
     @_wrap_mul_div_scalar
     def __truediv__(self, scalar):
-        return Diagonal(diagonal=self.diagonal / scalar)
+        return Diagonal(diagonal=self.diagonal / scalar, input_shape=self.input_shape)
 
     def __matmul__(self, other):
         # self @ other
         if isinstance(other, Diagonal):
             if self.shape == other.shape:
-                return Diagonal(diagonal=self.diagonal * other.diagonal)
+                return Diagonal(
+                    diagonal=self.diagonal * other.diagonal, input_shape=self.input_shape
+                )
             raise ValueError(f"Shapes {self.shape} and {other.shape} do not match.")
         else:
             return self(other)
